@@ -5,6 +5,7 @@ import Blue.Proofs.LogDamage
 import Blue.Proofs.LogCrash
 import Blue.Proofs.LogAny
 import Blue.Proofs.LogCrashAny
+import Blue.Proofs.LogCut
 import Blue.Proofs.FsyncCore
 import Blue.Proofs.Wcq
 import Blue.Proofs.WcqV
@@ -15,7 +16,7 @@ import Blue.Driver.C12
     concurrent appends are durable before return and appear exactly once, whole
 
 Property theorems only (the proofs live in `Blue/Proofs/{Log,LogAny,LogHeader,LogTrunc,LogDamage,
-LogCrash,LogCrashAny,FsyncCore,Wcq,WcqV}.lean`).  The model (`Blue/Model/Log.lean`) is the writer `_append` /
+LogCrash,LogCrashAny,LogCut,FsyncCore,Wcq,WcqV}.lean`).  The model (`Blue/Model/Log.lean`) is the writer `_append` /
 `append_split` / `true_up` and the reader `next_header` / `next_frame` / `next` of `sst/src/log.rs`
 over a parameter set `P` (block size, `HEADER_MAX_SIZE`, `TABLE_FULL_SIZE`, header codec, checksum).
 The reader's `true_up` reads the bytes it skips and refuses anything but the writer's zero padding
@@ -26,7 +27,16 @@ padding is zero (`writer_padding_passes_check`).
 32-bit checksum, in particular for the CRC-32C the driver computes.
 
 A batch here is the byte buffer of one `append` (for `ConcurrentLogBuilder`: the members'
-`WriteBatch` buffers merged by the write core into one frame). -/
+`WriteBatch` buffers merged by the write core into one frame).  The theorems are at BUFFER level:
+a batch is an opaque byte list; the decoding of a buffer into entries (`WriteBatch` framing) is
+driver / harness code, and the empty buffer is admitted by the model (`[] ∈ bufs` reads back as
+`[]`) while the real reader answers `Err(empty batch)` — `WriteBatch` never produces one.
+
+What is NOT a theorem: the composition of the four models (work-coalescing queue, write core,
+fsync core, log bytes).  The queue theorems say "the core is handed each input once, in link
+order"; that the file then is `writeAll` of the merged batches in that order, and that a `true`
+from the fsync core refers to THOSE bytes, is compared on every concurrent run (final file =
+`writeAll` of the observed merge, fdatasync probe), not proved. -/
 namespace Blue.Props.C12
 open Blue.Log
 
@@ -111,6 +121,23 @@ theorem readSome_take_prefix {P : Params} (file : List Nat) (n fuel off : Nat) :
     ∃ rest, (readSome P file fuel off).1 = (readSome P (file.take n) fuel off).1 ++ rest :=
   Blue.Log.readSome_take_prefix file n fuel off
 
+/-- **a torn tail loses ONLY the tail** (completeness of a cut): every batch whose frames lie wholly
+    before the cut IS delivered — whatever prefix `pre` the log is appended to -/
+theorem cut_keeps_whole {P : Params} (g : Good P) (bufs : List (List Nat)) (pre : List Nat) (j n : Nat)
+    (hsz : ∀ b ∈ bufs, b.length ≤ P.tableFull)
+    (hn : pre.length + (writeAll P (bufs.take j) pre.length).length ≤ n) :
+    ∃ rest, (readSome P ((pre ++ writeAll P bufs pre.length).take n) (bufs.length + 1) pre.length).1
+      = bufs.take j ++ rest :=
+  Blue.Log.cut_keeps_whole g bufs pre j n hsz hn
+
+/-- `truncated_log_prefix` and `cut_keeps_whole` together: a log cut at byte `n` delivers EXACTLY
+    the first `j'` batches, `j'` at least the number of batches written wholly before the cut -/
+theorem cut_delivers_exactly {P : Params} (g : Good P) (bufs : List (List Nat)) (j n : Nat)
+    (hsz : ∀ b ∈ bufs, b.length ≤ P.tableFull) (hn : (writeAll P (bufs.take j) 0).length ≤ n) :
+    ∃ j', min j bufs.length ≤ j' ∧ j' ≤ bufs.length
+      ∧ (readSome P ((writeAll P bufs 0).take n) (bufs.length + 1) 0).1 = bufs.take j' :=
+  Blue.Log.cut_delivers_exactly g bufs j n hsz hn
+
 /-- two files that agree on their first `m` bytes deliver identical batches for every read ending
     within those bytes: damage or truncation at offset `m` or later cannot change, reorder or
     invent an earlier batch -/
@@ -132,6 +159,19 @@ theorem crash_prefix {P : Params} (g : Good P) (bufs done : List (List Nat)) (st
       ∧ done.length + Blue.LogCrash.acked evs ≤ jb ∧ jb ≤ ja ∧ ja ≤ done.length + Blue.LogCrash.acked evs + 1 :=
   Blue.LogCrash.crash_prefix_any g bufs done st k hsz hs hp
 
+/-- the same with a TORN write: of the bytes written since the last completed `fdatasync` ANY
+    prefix of `t` bytes survives (`t = 0`: model (b); `t ≥ |pending|`: model (a)).  The surviving
+    file delivers exactly the first `j` batches, every acknowledged one among them, and then ends
+    or reports an error -/
+theorem crash_torn_prefix {P : Params} (g : Good P) (bufs done : List (List Nat)) (st : Blue.LogCrash.FileSt)
+    (k t : Nat) (hsz : ∀ b ∈ done ++ bufs, b.length ≤ P.tableFull)
+    (hs : st.synced = writeAll P done 0) (hp : st.pending = []) :
+    let evs := (Blue.LogCrash.protocol P bufs st.synced.length done.length).take k
+    let st' := evs.foldl Blue.LogCrash.FileSt.apply st
+    ∃ j, done.length + Blue.LogCrash.acked evs ≤ j ∧ j ≤ (done ++ bufs).length
+      ∧ (readSome P (st'.synced ++ st'.pending.take t) ((done ++ bufs).length + 1) 0).1 = (done ++ bufs).take j :=
+  Blue.LogCrash.crash_torn_prefix g bufs done st k t hsz hs hp
+
 /-! ## concurrent appends: the two coalescing queues -/
 
 /-- the fsync core keeps `synced ≤ durable ≤ written` whatever batches `can_batch` forms -/
@@ -139,7 +179,10 @@ theorem fsync_invariant {s : Blue.FsyncCore.St} (h : Blue.FsyncCore.Inv s) (ev :
     Blue.FsyncCore.Inv (Blue.FsyncCore.step s ev).1 := Blue.FsyncCore.inv_step h ev
 
 /-- a caller the fsync core answers `true` has its offset covered by an `fdatasync` that returned:
-    `append` returns `Ok` only after its bytes are durable -/
+    `append` returns `Ok` only after its bytes are durable.  (Model fact of `Blue.FsyncCore`: a
+    successful `fdatasync` sets `durable := written` by definition of `step`, and the `true` answer
+    is guarded by the maximum of the batch; the content is that the guard compares with the
+    maximum and that `Inv` is kept.) -/
 theorem answered_true_is_durable {s : Blue.FsyncCore.St} (h : Blue.FsyncCore.Inv s) (inputs : List Nat) (ok : Bool)
     (hans : (Blue.FsyncCore.step s (.work inputs ok)).2 = some true) :
     ∀ i ∈ inputs, i ≤ (Blue.FsyncCore.step s (.work inputs ok)).1.durable :=
@@ -156,8 +199,12 @@ theorem batch_returns_seen_loses_durability :
       ∧ (∀ i ∈ inputs, i ≤ (Blue.FsyncCore.step s (.work inputs true)).1.durable) :=
   Blue.FsyncCore.batch_returns_seen_loses_durability
 
-/-- in every interleaving of `do_work` the core is handed the callers' inputs exactly once each,
-    in link order: the file is `writeAll` of the appends in queue order -/
+/-- in every interleaving of `do_work` the log of what the core was handed is `0, 1, …, m-1`: the
+    callers' inputs in link order, none twice, none skipped (that every caller that RETURNED is
+    among them is `own_result`; "exactly once" for a still waiting caller is not claimed).  This is
+    a statement about the queue model alone: that the FILE then is `writeAll` of the merged batches
+    in that order is the composition with the write core and the log writer — compared on every
+    concurrent run, not a theorem (see the header) -/
 theorem core_sees_inputs_once_in_order (out : Nat → Nat) (evs : List Blue.Wcq.Ev) :
     ∃ m, (evs.foldl (Blue.Wcq.step out) Blue.Wcq.init).log = List.range m :=
   Blue.Wcq.core_sees_inputs_once_in_order out evs
@@ -202,7 +249,7 @@ def toyParams : Params where
   decH := fun bs => match bs with | [a, b, c] => some ⟨a, b, c⟩ | _ => none
   crc := fun _ => 0
 
-example : Good toyParams where
+theorem good_toy : Good toyParams where
   hH := by decide
   hB := by decide
   crc_lt := fun _ => by show (0 : Nat) < 4294967296; omega
@@ -224,6 +271,42 @@ example :
     ∧ readSome toyParams ((writeAll toyParams bufs 0).take 30) 7 0 = (bufs.take 2, true)
     ∧ readSome toyParams ((writeAll toyParams bufs 0).take 46) 7 0 = (bufs.take 4, false)
     ∧ readSome toyParams ((writeAll toyParams bufs 0).take 80) 7 0 = (bufs.take 5, true) := by decide
+
+/-- non-vacuity of `crash_prefix` / `crash_torn_prefix` / `cut_delivers_exactly` on a state that is
+    not the empty file: two batches are on disk, two more are appended; the crash falls after the
+    write of the second new batch (4 events: write, sync, ack, write).  One new acknowledgement;
+    model (a) reads all four batches, model (b) three; one to four of the five pending bytes torn
+    off the frame: three batches, then an error -/
+example :
+    let done : List (List Nat) := [[1, 2, 3, 4, 5, 6], [7, 8, 9, 10, 11]]
+    let bufs : List (List Nat) := [[12, 13, 14, 15, 16, 17, 18, 19], [20]]
+    let st0 : Blue.LogCrash.FileSt := ⟨writeAll toyParams done 0, []⟩
+    let evs := (Blue.LogCrash.protocol toyParams bufs st0.synced.length done.length).take 4
+    let st' := evs.foldl Blue.LogCrash.FileSt.apply st0
+    Blue.LogCrash.acked evs = 1
+    ∧ readAll toyParams (Blue.LogCrash.crashA st') 5 0 = some (done ++ bufs)
+    ∧ readAll toyParams (Blue.LogCrash.crashB st') 4 0 = some ((done ++ bufs).take 3)
+    ∧ st'.pending.length = 5
+    ∧ readSome toyParams (st'.synced ++ st'.pending.take 1) 5 0 = ((done ++ bufs).take 3, true)
+    ∧ readSome toyParams (st'.synced ++ st'.pending.take 4) 5 0 = ((done ++ bufs).take 3, true)
+    ∧ readSome toyParams (st'.synced ++ st'.pending.take 5) 5 0 = (done ++ bufs, false) := by decide
+
+/-- … and the theorems apply to it (their hypotheses are discharged) -/
+example (t : Nat) :=
+  crash_torn_prefix good_toy [[12, 13, 14, 15, 16, 17, 18, 19], [20]] [[1, 2, 3, 4, 5, 6], [7, 8, 9, 10, 11]]
+    ⟨writeAll toyParams [[1, 2, 3, 4, 5, 6], [7, 8, 9, 10, 11]] 0, []⟩ 4 t (by decide) rfl rfl
+example :=
+  crash_prefix good_toy [[12, 13, 14, 15, 16, 17, 18, 19], [20]] [[1, 2, 3, 4, 5, 6], [7, 8, 9, 10, 11]]
+    ⟨writeAll toyParams [[1, 2, 3, 4, 5, 6], [7, 8, 9, 10, 11]] 0, []⟩ 4 (by decide) rfl rfl
+
+/-- `cut_delivers_exactly` on the six-batch file below: a cut at byte 46 (inside the padding after
+    the fourth batch, whose frame ends at 44) delivers exactly four batches -/
+example :
+    let bufs := [[1, 2, 3, 4, 5, 6], [7, 8, 9, 10, 11], [12, 13, 14, 15, 16, 17, 18, 19], [20], [21],
+                 (List.range 20).map (· + 30)]
+    (writeAll toyParams (bufs.take 4) 0).length = 44
+    ∧ (readSome toyParams ((writeAll toyParams bufs 0).take 46) 7 0).1 = bufs.take 4
+    ∧ (readSome toyParams ((writeAll toyParams bufs 0).take 43) 7 0).1 = bufs.take 3 := by decide
 
 /-- the fsync core: a write of 10 bytes, then a batch `{7, 10}` whose `fdatasync` succeeds is
     answered `true` and both offsets are durable -/
@@ -255,6 +338,10 @@ end Blue.Props.C12
 #print axioms Blue.Props.C12.readSome_take_prefix
 #print axioms Blue.Props.C12.reads_agree_before_damage
 #print axioms Blue.Props.C12.crash_prefix
+#print axioms Blue.Props.C12.cut_keeps_whole
+#print axioms Blue.Props.C12.cut_delivers_exactly
+#print axioms Blue.Props.C12.crash_torn_prefix
+#print axioms Blue.Props.C12.good_toy
 #print axioms Blue.Props.C12.fsync_invariant
 #print axioms Blue.Props.C12.answered_true_is_durable
 #print axioms Blue.Props.C12.batch_returns_seen_loses_durability
